@@ -300,8 +300,22 @@ func doInject(c *cdi.Cache, hosts []hostNode, init *oci.Spec, names []string, im
 		// C14: applying a cached device's or Spec's edits directly must leave the cache alone as well
 		for _, n := range c.ListDevices() {
 			if d := c.GetDevice(n); d != nil {
+				// into an empty OCI spec and into the populated one of this step (non-zero uid / gid, existing sections)
+				target := func() *oci.Spec {
+					if init != nil {
+						return deepCopyOCI(init)
+					}
+					return &oci.Spec{}
+				}
 				_, _ = hx.Guard(func() { _ = d.ApplyEdits(&oci.Spec{}) })
 				_, _ = hx.Guard(func() { _ = d.GetSpec().ApplyEdits(&oci.Spec{}) })
+				t1, t2 := target(), target()
+				_, _ = hx.Guard(func() { _ = d.ApplyEdits(t1) })
+				_, _ = hx.Guard(func() { _ = d.GetSpec().ApplyEdits(t2) })
+				if defectPendingOCIAliasesCache {
+					scribbleOCI(t1)
+					scribbleOCI(t2)
+				}
 			}
 		}
 	}
